@@ -337,7 +337,7 @@ fn check_map(spec: &Spec, d: i64, map: &HitObjects) -> Option<(String, String)> 
                         apply_sample_point(&sp, s);
                     }
                 }
-                if g.node_samples != w.node_samples {
+                if g.node_samples != w.node_samples || !super::gen::same_node_samples(&g.node_samples, &w.node_samples) {
                     return Some(("node-sample-defaults".into(), format!("object {i}: node samples {:?}, expected {:?}", g.node_samples, w.node_samples)));
                 }
                 if g.new_combo != w.new_combo || g.combo_offset != w.combo_offset {
@@ -375,7 +375,7 @@ fn check_map(spec: &Spec, d: i64, map: &HitObjects) -> Option<(String, String)> 
             apply_sample_point(&sp, s);
         }
         let edge = matches!(got.kind, HitObjectKind::Slider(_)) && razor_edge(&cp, end_time + 5.0);
-        if !edge && got.samples != want.samples {
+        if !edge && (got.samples != want.samples || !super::gen::same_samples(&got.samples, &want.samples)) {
             return Some(("sample-defaults".into(), format!("object {i} at {} (end {end_time}): samples {:?}, expected {:?} from sample point {sp:?}", got.start_time, got.samples, want.samples)));
         }
     }
@@ -425,12 +425,12 @@ fn same_map(a: &HitObjects, b: &HitObjects) -> Option<String> {
         return Some("object count".into());
     }
     for (i, (x, y)) in a.hit_objects.iter().zip(&b.hit_objects).enumerate() {
-        if x.start_time != y.start_time || x.samples != y.samples {
+        if x.start_time != y.start_time || x.samples != y.samples || !super::gen::same_samples(&x.samples, &y.samples) {
             return Some(format!("object {i} start/samples: {:?} vs {:?}", (x.start_time, &x.samples), (y.start_time, &y.samples)));
         }
         match (&x.kind, &y.kind) {
             (HitObjectKind::Slider(p), HitObjectKind::Slider(q)) => {
-                if p.velocity.to_bits() != q.velocity.to_bits() || p.node_samples != q.node_samples || p.new_combo != q.new_combo || p.pos != q.pos {
+                if p.velocity.to_bits() != q.velocity.to_bits() || p.node_samples != q.node_samples || !super::gen::same_node_samples(&p.node_samples, &q.node_samples) || p.new_combo != q.new_combo || p.pos != q.pos {
                     return Some(format!("slider {i}: velocity/node samples/combo differ"));
                 }
             }
